@@ -46,9 +46,14 @@ Fixpoint rebuild (rv : tok -> option vres) (arguments : list tok) : option (list
       end
   end.
 
+(* token.value of the name argument (an ident; a leading comma is a literal) *)
+Definition tok_value (t : tok) : string := match t with TIdent v _ => v | TLit v => v | _ => "" end.
+(* f'__{name[2:]}': the key of a custom property in the styles - its exact name, "--" replaced by "__" *)
+Definition var_key (name : string) : string := ("__" ++ drop 2 name)%string.
+
 Section Resolve.
   (* computed[variable_name]: the tokens of the custom property on this element (cascaded, else inherited),
-     [] when it is not defined; keys are the names with every "-" replaced by "_" *)
+     [] when it is not defined *)
   Variable env : string -> list tok.
 
   (* parents = parent_variables: the custom properties whose value is being substituted *)
@@ -73,9 +78,11 @@ Section Resolve.
                    | None => None
                    end
                  else
-                   match fn_args args with
-                   | TIdent v _ :: default =>
-                       let variable_name := underscore v in
+                   (* args = remove_whitespace(token.arguments) ; args[0] the name, args[2:] the fallback *)
+                   match remove_whitespace args with
+                   | first :: rest =>
+                       let variable_name := var_key (tok_value first) in
+                       let default := tl rest in
                        if str_in variable_name parents then Some (RToks [])   (* cyclic: as if undefined, no fallback *)
                        else
                          let values := env variable_name in
@@ -84,7 +91,7 @@ Section Resolve.
                          | Some l => Some (RToks l)
                          | None => None
                          end
-                   | _ => Some RNone     (* not reached: has_var *)
+                   | [] => Some RNone     (* not reached: has_var *)
                    end
              | _ => Some RNone           (* not reached: has_var *)
              end
@@ -130,10 +137,10 @@ Section Subst.
 End Subst.
 
 (* the implementation's choices *)
-Definition impl_key := underscore.
-Definition impl_fallback (args : list tok) : list tok := tl (fn_args args).
+Definition impl_key := var_key.
+Definition impl_fallback (args : list tok) : list tok := tl (tl (remove_whitespace args)).
 Definition impl_var_name (args : list tok) : option string :=
-  match fn_args args with TIdent v _ :: _ => Some v | _ => None end.
+  match remove_whitespace args with first :: _ => Some (tok_value first) | [] => None end.
 
 (* the CSS grammar's: var( <custom-property-name> [, <declaration-value>]? ) - the fallback is everything
    after the first comma, commas included *)
@@ -151,7 +158,7 @@ Fixpoint refs_lt (rk : string -> nat) (n : nat) (t : tok) : bool :=
   | TFunc _ ln args =>
       if has_var t then
         (if String.eqb ln "var" then
-           match fn_args args with TIdent v _ :: _ => Nat.ltb (rk (underscore v)) n | _ => true end
+           match remove_whitespace args with first :: _ => Nat.ltb (rk (var_key (tok_value first))) n | [] => true end
          else true) &&
         (fix all (l : list tok) : bool :=
            match l with
